@@ -37,9 +37,9 @@ def R(size=1, **kw):
 def bank_sets_8():
     """Register sets for exhaustive co-exploration on an 8-bit bus (sizes from {1,3,8,9,17})."""
     return [
+        ("st17a_wfd", [S(17, atomic=True, wfd=True, reset=0x1A5C3)]),
         ("st17", [S(17)]),
         ("st17a", [S(17, atomic=True)]),
-        ("st17a_wfd", [S(17, atomic=True, wfd=True, reset=0x1A5C3)]),
         ("st9_wfd", [S(9, wfd=True, reset=0x155)]),
         ("st9a+sta9", [S(9, atomic=True), T(9)]),
         ("st1+sta3+raw8", [S(1, reset=1), T(3), R(8)]),
@@ -48,7 +48,7 @@ def bank_sets_8():
         ("st8+st8a+raw1", [S(8), S(8, atomic=True), R(1)]),
         ("fields", [S(1, fields=[Field("go", 1, pulse=True), Field("mode", 2, reset=2), Field("hi", 3, offset=8)]),
                     T(1, fields=[Field("a", 1), Field("b", 2, offset=2)])]),
-        ("st3+st9a+st1", [S(3, reset=5), S(9, atomic=True, wfd=True), S(1)]),
+        ("st3+st9a+st1", [S(3, reset=5), S(9, atomic=True), S(1)]),
     ]
 
 
@@ -103,9 +103,10 @@ def jobs(tier, seed=0):
     B = lambda mk, **kw: J.append(Job("B", mk, cycles=2500 if quick else 20000, runs=1 if quick else 4, **kw))
     for ordering in ("big", "little"):
         for nm, regs in bank_sets_8():
-            A(lambda nm=nm, regs=regs, ordering=ordering:
+            dv = (0x3C3C3C3C3C,) if (quick and nm == "st17a_wfd") else (0x3C3C3C3C3C, 0xFFFFFFFFFF)
+            A(lambda nm=nm, regs=regs, ordering=ordering, dv=dv:
               BankInst("bank8/%s/%s" % (ordering, nm), regs, bw=8, ordering=ordering, paging=0x20, address=1,
-                       monitor_atomic=not is_atomic_little(ordering, regs, 8)))
+                       dev_values=dv, monitor_atomic=not is_atomic_little(ordering, regs, 8)))
         for nm, regs in bank_sets_32():
             A(lambda nm=nm, regs=regs, ordering=ordering:
               BankInst("bank32/%s/%s" % (ordering, nm), regs, bw=32, ordering=ordering, paging=0x20, address=2,
@@ -133,9 +134,10 @@ def jobs(tier, seed=0):
                         {"a": 1, "b": 2}, {}, bw=8, ordering="big", paging=0x20, nmasters=2, data_values=(0xA5,)))
     # ---- B
     hv = harvest()
+    BA = lambda mk: J.append(Job("B", mk, cycles=1000 if quick else 10000, runs=1 if quick else 3))
     for bw in (8, 32):
         for ordering in ("big", "little"):
-            B(lambda bw=bw, ordering=ordering:
+            BA(lambda bw=bw, ordering=ordering:
               ArrayInst("arrayB/%d/%s/timer+uart+spi+wdt" % (bw, ordering),
                         [(nm, regs, [(32, 16, False, None)] if nm == "uart" else []) for nm, regs in hv],
                         {"timer": 0, "uart": 1, "spi": 2, "wdt": 5}, {("uart", 0): 3},
@@ -153,7 +155,10 @@ def jobs(tier, seed=0):
     B(lambda: SramInst("sramB/64x32-on-8/paged", 32, 64, bw=8, paging=0x80))
     B(lambda: SramInst("sramB/5x4-on-8/paged-odd", 4, 5, bw=8, paging=0x10))
     B(lambda: SramInst("sramB/1024x32-on-32/paged", 32, 1024, bw=32, paging=0x800, init=list(range(7, 300, 3))))
-    return J
+    # long jobs first (the pool hands jobs out in list order): real bank arrays, then the big product spaces
+    heavy = [j for j in J if j.kw.get("cycles") in (1000, 10000)]
+    rest = [j for j in J if j not in heavy]
+    return heavy + rest
 
 
 # ---------------------------------------------------------------------------------------------------------
